@@ -1196,6 +1196,43 @@ def gen_program(rng, sim, tier, for_commute=False):
     return gen_ffock(rng, tier, for_commute)
 
 
+GATEWISE = {
+    "purefock": ["Interferometer", "Beamsplitter", "Beamsplitter5050", "MachZehnder", "CrossKerr", "Squeezing2", "GaussianTransform"],
+    "fock": ["Interferometer", "Beamsplitter", "Beamsplitter5050", "MachZehnder", "CrossKerr", "Squeezing2", "GaussianTransform"],
+    "gaussian": ["Interferometer", "Beamsplitter", "Beamsplitter5050", "MachZehnder", "Squeezing2", "GaussianTransform",
+                 "ControlledX", "ControlledZ"],
+    "passive": ["Interferometer", "Beamsplitter", "Beamsplitter5050", "MachZehnder", "CrossKerr"],
+}
+
+
+def gen_gatewise(rng, sim, name, tier):
+    """A non-adaptive program of `sim` on d >= 2 modes with one extra multi-mode gate `name` inserted after the
+    preparation; relabelled by the reversal and by a random permutation, so every (simulator, gate type) pair meets
+    ascending and descending mode tuples in every run, whatever the random pools happen to draw."""
+    from vf.gen import programs as G
+
+    for _ in range(40):
+        doc = gen_program(rng, sim, tier, False)
+        kinds = [ins_kind(i) for i in doc["ins"]]
+        if doc["d"] < 2 or any(has_dynamic_params(i) for i in doc["ins"]):
+            continue
+        if "meas" in kinds[:-1]:
+            continue  # mid-circuit measurement: the active mode set changes
+        if sim == "passive" and any(i["t"] in ("Loss", "LossyInterferometer", "UniformLoss") for i in doc["ins"]) and name == "CrossKerr":
+            continue
+        first_gate = max([k for k, x in enumerate(kinds) if x == "prep"] + [-1]) + 1
+        last = len(doc["ins"]) - (1 if kinds and kinds[-1] == "meas" else 0)
+        kw = {"cutoff": doc["config"]["cutoff"]} if sim in ("purefock", "fock") else {}
+        g = G.gate(rng, name, doc["d"], active_scale=0.25, disp_scale=0.4, **kw)
+        if g is None:
+            continue
+        doc["ins"].insert(int(rng.integers(first_gate, last + 1)), g)
+        if sim in ("purefock", "fock") and not is_nc(sim, g):
+            doc["nc_history"] = False
+        return doc
+    return None
+
+
 def gen_sampler(rng, sim):
     """Number state through phased permutation interferometers: one possible outcome."""
     from vf.gen import matrices as M
@@ -1363,6 +1400,9 @@ def plan(tier, seed):
     for rep in range(reps):
         specs.append({"name": "sampler-%d" % rep, "kind": "sampler", "sim": "all", "shard": 100 + rep,
                       "programs": 120 * mult, "env": env})
+    for sim in sorted(GATEWISE):
+        specs.append({"name": "gatewise-%s" % sim, "kind": "gatewise", "sim": sim, "shard": 200 + ALL_SIMS.index(sim),
+                      "programs": len(GATEWISE[sim]) * (4 if q else 16), "env": env})
     # heavy shards first
     order = {"fock": 0, "purefock": 1, "passive": 2, "all": 3, "ffock": 4, "gaussian": 5, "fgaussian": 6}
     specs.sort(key=lambda s: order[s["sim"]])
@@ -1396,6 +1436,16 @@ def run_shard(spec):
             if len(ctx.samples) < 2 and i % 6 == 0:
                 ctx.samples.append({"kind": "sampler", "sim": sim, "shots": doc["shots"], "routed_outcome": list(routed_outcome(doc)),
                                     "ins": [[x["t"], x.get("m")] for x in doc["ins"]]})
+            continue
+        if kind == "gatewise":
+            name = GATEWISE[spec["sim"]][i % len(GATEWISE[spec["sim"]])]
+            doc = gen_gatewise(rng, spec["sim"], name, spec["tier"])
+            if doc is None:
+                continue
+            base = case_relabel(ctx, pq, doc, [doc["d"] - 1 - j for j in range(doc["d"])], None)
+            case_relabel(ctx, pq, doc, choose_pi(rng, doc), base)
+            ctx.c["gatewise_cases"] = ctx.c.get("gatewise_cases", 0) + 1
+            ctx.classes.add("gatewise|%s|%s" % (spec["sim"], name))
             continue
         doc = gen_program(rng, spec["sim"], spec["tier"], for_commute=(kind == "commute"))
         if kind == "relabel":
